@@ -503,6 +503,68 @@ def relname(path, var, g):
     return '.'.join(P[g:] + [var['name']])
 
 
+# ------------------------------------------------------------------------------------ solver scaling (C08)
+
+def with_scaling(spec, rng, pow2=True):
+    """copy of spec with random positive and negative ref / ref0 / res_ref on outputs (scalar and array).
+    pow2: ref - ref0 and res_ref are +-2^k (binary64 arithmetic of the scaling stays exact)"""
+    import copy
+    s2 = copy.deepcopy(spec)
+
+    def span():
+        if pow2:
+            return _pow2(rng)
+        return rng.choice([F(3), F(-3), F(5), F(-7), F(10), F(1, 2), F(-2), F(6), F(-1), F(100)])
+    for c in s2['comps']:
+        for o in c['outs']:
+            n = o['size']
+            if rng.random() < 0.7:
+                vec = n > 1 and rng.random() < 0.4
+                r0 = [F(rng.randrange(-2, 3)) if rng.random() < 0.6 else F(0) for _ in range(n if vec else 1)]
+                a1 = [span() for _ in range(n if vec else 1)]
+                # ref = 0 is not admissible: res_ref defaults to ref
+                r0 = [a if a + b != 0 else a + 1 for a, b in zip(r0, a1)]
+                ref = [a + b for a, b in zip(r0, a1)]
+                k = rng.random()
+                if k < 0.6:
+                    o['ref0'], o['ref'] = (js(r0), js(ref)) if vec else (js(r0[0]), js(ref[0]))
+                elif k < 0.8:
+                    o['ref'] = js(a1) if vec else js(a1[0])         # ref only (ref0 = 0)
+                else:
+                    o['ref0'] = js(r0) if vec else js(r0[0])        # ref0 only (ref = 1): keep ref - ref0 admissible
+                    if any(1 - v == 0 for v in r0):
+                        o['ref0'] = None
+                    elif pow2 and not all(is_dyadic(1 / (1 - v)) for v in r0):
+                        o['ref0'] = None
+            if rng.random() < 0.6:
+                vec = n > 1 and rng.random() < 0.4
+                rr = [span() for _ in range(n if vec else 1)]
+                o['res_ref'] = js(rr) if vec else js(rr[0])
+    return s2
+
+
+def out_scalings(spec, flat):
+    """per flat variable: (ref0, ref, res_ref) entrywise"""
+    res = []
+    for v in flat['vars']:
+        n = v['size']
+
+        def bc(x, dflt):
+            if x is None:
+                return [F(dflt)] * n
+            x = fr(x)
+            return list(x) if isinstance(x, list) else [x] * n
+        if v['auto']:
+            res.append(([F(0)] * n, [F(1)] * n, [F(1)] * n))
+        else:
+            res.append((bc(v.get('ref0'), 0), bc(v.get('ref'), 1), bc(v.get('res_ref'), 1)))
+    return res
+
+
+def gallina_oscals(spec, flat):
+    return '[%s]' % '; '.join('(mkoscal %s %s %s)' % (qvec(a), qvec(b), qvec(c)) for a, b, c in out_scalings(spec, flat))
+
+
 # ------------------------------------------------------------------------------------ flat algebra
 
 def norm_idx(idx, n):
